@@ -308,11 +308,14 @@ def scenario(rnd, n, dead, noisy, top, ns=3000):
     # (and not within the median window below the block: a noise-only channel has coherence 0 +- 0.15 with the
     #  median trace, too close to call where it is the deciding 6th value of a window)
     nrep = 1 if (noisy and rnd.random() < 0.4 and (not dead or abs(dead - noisy) > 10)
-                 and not (n - top - 6 < noisy <= n - top)) else 0
-    return {"kind": "detect", "n": n, "dead": dead, "noisy": noisy, "nrep": nrep, "top": top, "ns": ns,
-            "seed": rnd.randrange(1 << 30),
-            "amp": rnd.choice([40e-6, 60e-6, 80e-6]), "sig": rnd.choice([3e-6, 4e-6, 5e-6]),
-            "nsig": rnd.choice([150e-6, 300e-6]), "silent": rnd.choice(["zeros", "zeros", "hum"])}
+                 and not (n - top - 6 < noisy <= n - top + 6)) else 0      # ... on either side of the block boundary
+    sc = {"kind": "detect", "n": n, "dead": dead, "noisy": noisy, "nrep": nrep, "top": top, "ns": ns,
+          "seed": rnd.randrange(1 << 30),
+          "amp": rnd.choice([40e-6, 60e-6, 80e-6]), "sig": rnd.choice([3e-6, 4e-6, 5e-6]),
+          "nsig": rnd.choice([150e-6, 300e-6]), "silent": rnd.choice(["zeros", "zeros", "hum"])}
+    if top and noisy and noisy > n - top - 6:
+        sc["nsig"] = 150e-6     # the strongest noise inside / next to the block sits at the decision threshold of the block edge
+    return sc
 
 
 def detect_scenarios(ctx):
@@ -641,11 +644,31 @@ def describe(meta, rec):
            f"{' stubbed detector' if meta['stub'] is not None else ''}"
 
 
+def systematic(ctx, m, prop):
+    """The detection clauses rest on numeric features crossing thresholds. A scenario that fails is re-run with two other
+    background seeds (same faults, same amplitudes): a slip in the code fails all of them, a draw that merely sits at a
+    threshold does not. Only a majority (>= 2 of 3) is reported; the rest is counted as numerically marginal."""
+    if m.get("kind") != "detect" or _key(prop) == "detect:dead-below-top-block":
+        return True
+    again = [dict(m, seed=(m["seed"] + 7919 * k) % (1 << 30)) for k in (1, 2)]
+    recs = [run_detect(sc) for sc in again]
+    keep = ctx.cov["traces_validated_against_impl"]
+    vs = validate(ctx, recs, "confirm")
+    ctx.cov["traces_validated_against_impl"] = keep
+    fails = 1 + sum(1 for v in vs if v["prop"] and _key(v["prop"]) == _key(prop))
+    if fails >= 2:
+        return True
+    ctx.cov.setdefault("numerically_marginal_detect_scenarios", []).append(
+        {k: m[k] for k in ("dead", "noisy", "top", "seed", "amp", "sig", "nsig") if k in m})
+    return False
+
+
 def report(ctx, verdicts, metas, recs):
     for v in verdicts:
         m, r = metas[v["index"]], recs[v["index"]]
         if v["prop"]:
-            ctx.violation(_key(v["prop"]), f"{describe(m, r)}: property-layer clause {v['prop']} false", m)
+            if systematic(ctx, m, v["prop"]):
+                ctx.violation(_key(v["prop"]), f"{describe(m, r)}: property-layer clause {v['prop']} false", m)
         elif v["impl"] == "interp:oracle-support":
             raise tlc.TLCError(f"the oracle's support sets differ from the spec's on {describe(m, r)}")
         elif v["impl"]:
